@@ -1,5 +1,5 @@
-(* Generic facts about the mask-respecting combinators and the range theorem (C04), the mask law (C03)
-   and shape preservation (C05) for all 31 command models. *)
+(* Generic facts about the mask-respecting combinator, and from them: the range theorem (C04), the mask law
+   (C03) and shape preservation (C05) for all 31 command models. *)
 From Coq Require Import QArith Qminmax Qabs List Bool ZArith Lia Lqa.
 From MP Require Import Model.Cells.
 Import ListNotations.
@@ -17,28 +17,73 @@ Proof. intros [A B]. unfold clamp2. destruct (Qlt_le_dec hi x) as [C|C]; [lra|].
   destruct (Qlt_le_dec x lo) as [D|D]; [lra | reflexivity]. Qed.
 Lemma fz_id x : -1 <= x <= 1 -> fz x = x.
 Proof. apply clamp2_id. Qed.
+Lemma clamp2_proper lo hi x y : x == y -> clamp2 lo hi x == clamp2 lo hi y.
+Proof. intros E. unfold clamp2.
+  destruct (Qlt_le_dec hi x), (Qlt_le_dec hi y); try lra;
+  repeat match goal with |- context [Qlt_le_dec ?a ?b] => destruct (Qlt_le_dec a b) end; lra. Qed.
+Lemma fz_proper x y : x == y -> fz x == fz y.
+Proof. apply clamp2_proper. Qed.
+Lemma Qred_range lo hi q : lo <= q <= hi -> lo <= Qred q <= hi.
+Proof. intros H. rewrite (Qred_correct q). exact H. Qed.
 
-(* ---------- predicates on results ---------- *)
+(* ---------- the combinator ---------- *)
+Definition isnone (c : cell) : bool := match c with None => true | Some _ => false end.
+Definition any_none (col : list cell) : bool := existsb isnone col.
+
+Lemma all_some_none col : all_some col = None <-> any_none col = true.
+Proof. induction col as [|c col IH]; simpl; [split; discriminate|]. destruct c as [q|]; simpl.
+  - destruct (all_some col); [split; [discriminate | intros H; apply IH in H; discriminate] | tauto].
+  - tauto. Qed.
+Lemma all_some_length col vs : all_some col = Some vs -> length vs = length col.
+Proof. revert vs. induction col as [|c col IH]; simpl; intros vs H.
+  - inversion H. reflexivity.
+  - destruct c as [q|]; [|discriminate]. destruct (all_some col) as [l|]; [|discriminate]. inversion H; subst. simpl. f_equal. auto. Qed.
+Lemma all_some_map_Some vs : all_some (map Some vs) = Some vs.
+Proof. induction vs as [|v vs IH]; simpl; [reflexivity|]. rewrite IH. reflexivity. Qed.
+
+Lemma cw_length f cols : length (cw f cols) = length cols. Proof. apply map_length. Qed.
+
+(* a result cell is missing exactly when some input cell of its column is missing or f is undefined there *)
+Definition undefined_at (f : list Q -> option Q) (col : list cell) : bool :=
+  match all_some col with Some vs => isnone (f vs) | None => false end.
+Lemma cw_cell_mask f col : isnone (cw_cell f col) = any_none col || undefined_at f col.
+Proof. unfold cw_cell, undefined_at. destruct (all_some col) as [vs|] eqn:E.
+  - assert (A : any_none col = false). { destruct (any_none col) eqn:A; [|reflexivity]. apply all_some_none in A. congruence. }
+    rewrite A. destruct (f vs); reflexivity.
+  - apply all_some_none in E. rewrite E. reflexivity. Qed.
+Theorem cw_mask_law f cols : map isnone (cw f cols) = map (fun col => any_none col || undefined_at f col) cols.
+Proof. unfold cw. rewrite map_map. apply map_ext. intros col. apply cw_cell_mask. Qed.
+
+(* predicates on result cells *)
 Definition cellP (R : Q -> Prop) (c : cell) : Prop := match c with Some q => R q | None => True end.
 Definition resP (R : Q -> Prop) (r : res arr) : Prop :=
   match r with ROk a => Forall (cellP R) (a_cells a) | RErr _ => True end.
-
-Lemma cw1_P (R : Q -> Prop) f a : (forall x q, f x = Some q -> R q) -> Forall (cellP R) (cw1 f a).
-Proof. intros H. unfold cw1. apply Forall_forall. intros c Hc. apply in_map_iff in Hc. destruct Hc as [c0 [<- _]].
-  destruct c0 as [x|]; simpl; [|exact I]. destruct (f x) as [q|] eqn:E; simpl; [eapply H; eauto | exact I]. Qed.
-Lemma cw_P (R : Q -> Prop) f cols : (forall vs q, f vs = Some q -> R q) -> Forall (cellP R) (cw f cols).
+Lemma cw_P (R : Q -> Prop) f cols : (forall vs q, f vs = Some q -> R (Qred q)) -> Forall (cellP R) (cw f cols).
 Proof. intros H. unfold cw. apply Forall_forall. intros c Hc. apply in_map_iff in Hc. destruct Hc as [col [<- _]].
-  destruct (all_some col) as [vs|]; simpl; [|exact I]. destruct (f vs) as [q|] eqn:E; simpl; [eapply H; eauto | exact I]. Qed.
-Lemma unary_P (R : Q -> Prop) dt f a : (forall x q, f x = Some q -> R q) -> resP R (ROk (unary dt f a)).
-Proof. intros H. simpl. apply cw1_P. exact H. Qed.
-Lemma nary_P (R : Q -> Prop) dt f ins : (forall vs q, f vs = Some q -> R q) -> resP R (nary dt f ins).
-Proof. intros H. unfold nary. destruct (validate_shapes ins); simpl; [exact I|]. apply cw_P. exact H. Qed.
-Lemma fzres_P r : resP (fun q => -1 <= q <= 1) (fzres r).
-Proof. destruct r as [a|e]; simpl; [|exact I]. apply cw1_P. intros x q H. inversion H; subst. apply fz_range. Qed.
-Lemma weighted_P (R : Q -> Prop) ins ws k : resP R k -> resP R (weighted ins ws k).
-Proof. intros H. unfold weighted. destruct (negb _); [exact I | exact H]. Qed.
-Lemma one_P (R : Q -> Prop) ins k : (forall a, resP R (k a)) -> resP R (one ins k).
-Proof. intros H. unfold one. destruct ins as [|a [|b t]]; simpl; try exact I. apply H. Qed.
+  unfold cw_cell. destruct (all_some col) as [vs|]; simpl; [|exact I]. destruct (f vs) as [q|] eqn:E; simpl; [eapply H; eauto | exact I]. Qed.
+
+(* columns *)
+Lemma col_at_length ins i : length (col_at ins i) = length ins.
+Proof. apply map_length. Qed.
+Lemma cols_of_length ins : length (cols_of ins) = ncells ins.
+Proof. unfold cols_of. rewrite map_length, seq_length. reflexivity. Qed.
+Lemma cols_of_col_length ins col : In col (cols_of ins) -> length col = length ins.
+Proof. unfold cols_of. intros H. apply in_map_iff in H. destruct H as [i [<- _]]. apply col_at_length. Qed.
+
+(* ---------- run: the representation is definitional ---------- *)
+Lemma run_ok c ins r : run c ins = ROk r ->
+  pre c ins = None /\ a_dt r = odt c ins /\ a_shape r = first_shape ins /\
+  a_cells r = cw (colf c ins) (cols_of (map a_cells ins)).
+Proof. unfold run. destruct (pre c ins); [discriminate|]. intros H. inversion H; subst. simpl. auto. Qed.
+Lemma run_err c ins e : run c ins = RErr e <-> pre c ins = Some e.
+Proof. unfold run. destruct (pre c ins); split; intros H; inversion H; subst; reflexivity. Qed.
+
+(* ---------- C05 (first half): shape and number of cells ---------- *)
+Definition shapeP (sh : list nat) (r : res arr) : Prop := match r with ROk a => a_shape a = sh | RErr _ => True end.
+Theorem run_shape c ins : shapeP (first_shape ins) (run c ins).
+Proof. unfold run. destruct (pre c ins); simpl; auto. Qed.
+Theorem run_ncells c ins r : run c ins = ROk r -> length (a_cells r) = ncells (map a_cells ins).
+Proof. intros H. apply run_ok in H. destruct H as (_ & _ & _ & ->). rewrite cw_length. apply cols_of_length. Qed.
 
 (* ---------- C04 ---------- *)
 Definition fuzzy_cmd (c : ecmd) : bool :=
@@ -48,106 +93,153 @@ Definition fuzzy_cmd (c : ecmd) : bool :=
   | FuzzyOr | FuzzyAnd | FuzzyXOr | FuzzyNot => true
   | _ => false
   end.
-Definition fuzzy_names : list (bool * bool) := [].
 
-Ltac some_fz := let H := fresh in intros ? ? H; first [inversion H; subst; apply fz_range | idtac].
+Definition in_fz (q : Q) : Prop := -1 <= q <= 1.
+Lemma ofz_in o q : ofz o = Some q -> in_fz q.
+Proof. destruct o; simpl; intros H; inversion H; subst. apply fz_range. Qed.
+Lemma u1_in f vs q : (forall x q, f x = Some q -> in_fz q) -> u1 f vs = Some q -> in_fz q.
+Proof. intros H. destruct vs as [|x [|y t]]; simpl; try discriminate. apply H. Qed.
 
-Theorem fuzzy_range c ins : fuzzy_cmd c = true -> resP (fun q => -1 <= q <= 1) (run c ins).
+(* every value a fuzzy command computes for a column has been through the clamp *)
+Lemma fuzzy_colf c ins vs q : fuzzy_cmd c = true -> colf c ins vs = Some q -> in_fz q.
 Proof.
-  destruct c; simpl; try discriminate; intros _.
-  - (* CvtToFuzzy *) apply one_P. intros a. unfold cvt_to_fuzzy. destruct d; try exact I;
-    (destruct (qminl (somes (a_cells a))); [|exact I]; destruct (qmaxl (somes (a_cells a))); [|exact I];
-     match goal with |- context [Qeq_bool ?x ?y] => destruct (Qeq_bool x y) end; [exact I|];
-     apply unary_P; intros xx qq H; match type of H with match ?l with _ => _ end = _ => destruct l end; inversion H; subst; apply fz_range).
-  - apply one_P. intros a. apply fzres_P.
-  - apply one_P. intros a. apply fzres_P.
-  - apply one_P. intros a. apply fzres_P.
-  - apply one_P. intros a. apply fzres_P.
-  - apply one_P. intros a. apply fzres_P.
-  - apply one_P. intros a. apply fzres_P.
-  - (* FuzzyUnion *) apply nary_P. some_fz.
-  - (* FuzzyWeightedUnion *) apply weighted_P, nary_P. intros vs q H. destruct (divq _ _); inversion H; subst. apply fz_range.
-  - (* FuzzySelectedUnion *) destruct (validate_shapes ins); [exact I|]. destruct (Z.ltb _ _); [exact I|].
-    destruct truest as [tr|]; [|exact I]. destruct (Z.ltb k 1); [exact I|]. apply nary_P. unfold sel_union. some_fz.
-  - (* FuzzyOr *) apply nary_P. intros vs q H. destruct (qmaxl vs); inversion H; subst. apply fz_range.
-  - (* FuzzyAnd *) apply nary_P. intros vs q H. destruct (qminl vs); inversion H; subst. apply fz_range.
-  - (* FuzzyXOr *) destruct (validate_shapes ins); [exact I|]. destruct ins as [|a [|b t]]; try exact I.
-    + apply nary_P. intros vs q H. unfold xor_cell in H. destruct (rev (sortq vs)) as [|t1 [|t2 r]]; inversion H; subst. apply fz_range.
-    + apply nary_P. intros vs q H. unfold xor_cell in H. destruct (rev (sortq vs)) as [|t1 [|t2 r]]; inversion H; subst. apply fz_range.
-  - (* FuzzyNot *) apply one_P. intros a. apply unary_P. some_fz.
+  destruct c; intros Hc; try discriminate Hc; clear Hc; unfold colf.
+  - destruct (ctf_thresholds t f d (vals_of ins)) as [[tv fv]|]; [|discriminate]. apply u1_in. intros x q0. apply ofz_in.
+  - apply u1_in. intros x q0. apply ofz_in.
+  - apply u1_in. intros x q0 H. inversion H; subst. apply fz_range.
+  - apply u1_in. intros x q0. apply ofz_in.
+  - apply u1_in. intros x q0. apply ofz_in.
+  - apply u1_in. intros x q0. apply ofz_in.
+  - apply u1_in. intros x q0 H. inversion H; subst. apply fz_range.
+  - intros H. inversion H; subst. apply fz_range.
+  - apply ofz_in.
+  - destruct truest as [tr|]; [|discriminate]. unfold sel_union. intros H. inversion H; subst. apply fz_range.
+  - apply ofz_in.
+  - apply ofz_in.
+  - unfold xor_cell. destruct (rev (sortq vs)) as [|t1 [|t2 r]]; try discriminate. intros H. inversion H; subst. apply fz_range.
+  - apply u1_in. intros x q0 H. inversion H; subst. apply fz_range.
 Qed.
+
+Theorem fuzzy_range c ins : fuzzy_cmd c = true -> resP in_fz (run c ins).
+Proof. intros Hc. unfold run. destruct (pre c ins); simpl; [exact I|]. apply cw_P. intros vs q H.
+  apply Qred_range. eapply fuzzy_colf; eauto. Qed.
 
 (* ---------- C03: the mask law ---------- *)
-Definition isnone (c : cell) : bool := match c with None => true | Some _ => false end.
-Definition any_none (col : list cell) : bool := existsb isnone col.
+Definition in_cols (ins : list arr) : list (list cell) := cols_of (map a_cells ins).
 
-Lemma all_some_none col : all_some col = None <-> any_none col = true.
-Proof. induction col as [|c col IH]; simpl; [split; discriminate|]. destruct c as [q|]; simpl.
-  - destruct (all_some col); [split; [discriminate | intros H; apply IH in H; discriminate] | tauto].
-  - tauto. Qed.
+Theorem run_mask_law c ins r : run c ins = ROk r ->
+  map isnone (a_cells r) = map (fun col => any_none col || undefined_at (colf c ins) col) (in_cols ins).
+Proof. intros H. apply run_ok in H. destruct H as (_ & _ & _ & ->). apply cw_mask_law. Qed.
 
-(* a result cell is missing exactly when some input cell of its column is missing or f is undefined there *)
-Theorem cw_mask_law f cols :
-  map isnone (cw f cols) =
-  map (fun col => any_none col || match all_some col with Some vs => isnone (f vs) | None => false end) cols.
-Proof. unfold cw. rewrite map_map. apply map_ext. intros col. destruct (all_some col) as [vs|] eqn:E.
-  - assert (any_none col = false). { destruct (any_none col) eqn:A; [|reflexivity]. apply all_some_none in A. congruence. }
-    rewrite H. reflexivity.
-  - apply all_some_none in E. rewrite E. reflexivity. Qed.
+(* a missing input cell always gives a missing result cell *)
+Corollary missing_stays_missing c ins r i : run c ins = ROk r ->
+  any_none (nth i (in_cols ins) []) = true -> nth i (a_cells r) None = None.
+Proof. intros H A. apply run_ok in H. destruct H as (_ & _ & _ & ->). unfold cw.
+  destruct (Nat.lt_ge_cases i (length (in_cols ins))) as [L|L].
+  - rewrite (nth_indep _ None (cw_cell (colf c ins) [])) by (rewrite map_length; exact L).
+    rewrite map_nth. fold (in_cols ins). generalize (cw_cell_mask (colf c ins) (nth i (in_cols ins) [])).
+    rewrite A. simpl. destruct (cw_cell _ _); [discriminate | reflexivity].
+  - apply nth_overflow. rewrite map_length. exact L. Qed.
 
-(* for operations defined everywhere: missing iff some input cell is missing *)
-Corollary cw_mask_total f cols : (forall vs, f vs <> None) -> map isnone (cw f cols) = map any_none cols.
-Proof. intros T. rewrite cw_mask_law. apply map_ext. intros col. destruct (all_some col) as [vs|]; [|apply orb_false_r].
-  specialize (T vs). destruct (f vs); [apply orb_false_r | congruence]. Qed.
-Lemma cw1_mask_law f a : map isnone (cw1 f a) = map (fun c => match c with Some x => isnone (f x) | None => true end) a.
-Proof. unfold cw1. rewrite map_map. apply map_ext. intros [x|]; reflexivity. Qed.
-Corollary cw1_mask_total f a : (forall x, f x <> None) -> map isnone (cw1 f a) = map isnone a.
-Proof. intros T. rewrite cw1_mask_law. apply map_ext. intros [x|]; simpl; [|reflexivity]. specialize (T x). destruct (f x); [reflexivity | congruence]. Qed.
+(* commands whose operation is defined for all values: a result cell is missing iff an input cell is *)
+Definition total_cmd (c : ecmd) : bool :=
+  match c with
+  | ADividedByB | WeightedMean _ | FuzzyWeightedUnion _ | Normalize _ _ | NormalizeZScore _ _ _ _ _ | CvtToFuzzyZScore _ _ _ => false
+  | _ => true
+  end.
 
-(* division: undefined exactly on a zero divisor *)
-Lemma c_div_undefined a b : c_div [a; b] = None <-> b == 0.
-Proof. unfold c_div. destruct (Qeq_bool b 0) eqn:E; [apply Qeq_bool_eq in E | apply Qeq_bool_neq in E]; split; auto; try discriminate; tauto. Qed.
+Lemma validate_nonempty ins : validate_shapes ins = None -> ins <> [].
+Proof. destruct ins; simpl; congruence. Qed.
+Lemma orelse_none a b : orelse a b = None -> a = None /\ b = None.
+Proof. destruct a; simpl; [discriminate | auto]. Qed.
+Lemma single_inv ins : single ins = None -> exists a, ins = [a].
+Proof. destruct ins as [|a [|b t]]; simpl; try discriminate. eauto. Qed.
+Lemma pair_inv ins : pair_in ins = None -> exists a b, ins = [a; b].
+Proof. destruct ins as [|a [|b [|c t]]]; simpl; try discriminate. eauto. Qed.
+Lemma len1 {A} (l : list A) : length l = 1%nat -> exists x, l = [x].
+Proof. destruct l as [|x [|y t]]; simpl; try discriminate. eauto. Qed.
+Lemma len2 {A} (l : list A) : length l = 2%nat -> exists x y, l = [x; y].
+Proof. destruct l as [|x [|y [|z t]]]; simpl; try discriminate. eauto. Qed.
+Lemma qminl_some l : l <> [] -> qminl l <> None.
+Proof. destruct l; [congruence|]. simpl. destruct (qminl l); discriminate. Qed.
+Lemma qmaxl_some l : l <> [] -> qmaxl l <> None.
+Proof. destruct l; [congruence|]. simpl. destruct (qmaxl l); discriminate. Qed.
+Lemma insert_length x l : length (insert x l) = S (length l).
+Proof. induction l as [|y t IH]; simpl; [reflexivity|]. destruct (Qle_bool x y); simpl; congruence. Qed.
+Lemma sortq_length l : length (sortq l) = length l.
+Proof. induction l as [|x t IH]; simpl; [reflexivity|]. rewrite insert_length. congruence. Qed.
+Lemma insert_pt_nonempty p l : insert_pt p l <> [].
+Proof. destruct l; simpl; [discriminate|]. destruct (pt_le p p0); discriminate. Qed.
+Lemma sort_pts_nonempty l : l <> [] -> sort_pts l <> [].
+Proof. destruct l; [congruence|]. intros _. simpl. apply insert_pt_nonempty. Qed.
+Lemma interp_some pts x : pts <> [] -> interp pts x <> None.
+Proof. destruct pts; [congruence|]. discriminate. Qed.
+Lemma zipw_nonempty {A B C} (f : A -> B -> C) a b : a <> [] -> length a = length b -> zipw f a b <> [].
+Proof. destruct a, b; simpl; try congruence; discriminate. Qed.
+Lemma curve_checks_pts raws normals : curve_checks raws normals = None -> curve_pts raws normals <> [].
+Proof. unfold curve_checks, curve_pts. destruct (Nat.eqb (length raws) (length normals)) eqn:E; simpl; [|discriminate].
+  destruct (has_dupq raws); [discriminate|]. destruct raws as [|r rs]; [discriminate|]. intros _.
+  apply sort_pts_nonempty. apply zipw_nonempty; [discriminate|]. apply Nat.eqb_eq. exact E. Qed.
+Lemma ofz_some o : o <> None -> ofz o <> None.
+Proof. destruct o; simpl; congruence. Qed.
+Lemma lin_some x1 y1 x2 y2 x : Qeq_bool (x2 - x1) 0 = false -> lin x1 y1 x2 y2 x <> None.
+Proof. intros H. unfold lin, divq. rewrite H. discriminate. Qed.
 
-(* ---------- C05: shape and length ---------- *)
-Lemma cw_length f cols : length (cw f cols) = length cols. Proof. apply map_length. Qed.
-Lemma cw1_length f a : length (cw1 f a) = length a. Proof. apply map_length. Qed.
+Ltac split_pre :=
+  repeat match goal with H : orelse _ _ = None |- _ => apply orelse_none in H; destruct H end.
+Ltac use_single Hl :=
+  match goal with H : single _ = None |- _ =>
+    apply single_inv in H; destruct H as [a0 ->]; simpl in Hl; apply len1 in Hl; destruct Hl as [x0 ->]; cbn [u1] end.
 
-Definition shapeP (sh : list nat) (r : res arr) : Prop := match r with ROk a => a_shape a = sh | RErr _ => True end.
-Lemma nary_shape dt f ins : shapeP (first_shape ins) (nary dt f ins).
-Proof. unfold nary. destruct (validate_shapes ins); simpl; auto. Qed.
-Lemma fzres_shape sh r : shapeP sh r -> shapeP sh (fzres r).
-Proof. destruct r; simpl; auto. Qed.
-Lemma one_shape ins k : (forall a, shapeP (a_shape a) (k a)) -> shapeP (first_shape ins) (one ins k).
-Proof. intros H. unfold one. destruct ins as [|a [|b t]]; simpl; auto. apply H. Qed.
-Lemma curve_shape r n a : shapeP (a_shape a) (curve r n a).
-Proof. unfold curve. destruct (curve_checks r n); simpl; auto. Qed.
-Lemma cat_shape r n d a : shapeP (a_shape a) (cat r n d a).
-Proof. unfold cat. destruct (negb _); simpl; auto. destruct (has_dupq r); simpl; auto. Qed.
-Lemma mtm_shape iz n a : shapeP (a_shape a) (mean_to_mid iz n a).
-Proof. unfold mean_to_mid. destruct (qminl _); simpl; auto. destruct (qmaxl _); simpl; auto.
-  destruct (if iz then _ else _) as [|u0 us]; simpl; auto.
-  destruct (filter (fun x => negb _) (u0 :: us)) as [|a0 ab]; simpl; auto.
-  destruct (filter (fun x => Qle_bool _ _) (u0 :: us)) as [|b0 bl]; simpl; auto.
-  destruct (negb (Nat.eqb (length n) 5)); simpl; auto.
-  repeat match goal with |- context [if ?b then _ else _] => destruct b end; apply curve_shape. Qed.
-Lemma cz_shape s z n a : shapeP (a_shape a) (curve_zscore s z n a).
-Proof. unfold curve_zscore. destruct (negb _); simpl; auto. destruct z; simpl; auto. Qed.
+Lemma cz_pts_nonempty sigma mu zs normals :
+  (if negb (Nat.eqb (length zs) (length normals)) then Some EMixedLengths
+   else match zs with [] => Some EUnexpected | _ => None end) = None -> cz_pts sigma mu zs normals <> [].
+Proof. intros H. unfold cz_pts. apply sort_pts_nonempty.
+  destruct (Nat.eqb (length zs) (length normals)) eqn:E; simpl in *; [|discriminate]. destruct zs as [|z zs]; [discriminate|].
+  apply zipw_nonempty; [discriminate|]. rewrite map_length. apply Nat.eqb_eq. exact E. Qed.
+Lemma mtm_pts_nonempty iz normals vals : mtm_checks iz normals vals = None -> mtm_pts iz normals vals <> [].
+Proof. unfold mtm_checks, mtm_pts. destruct (mtm_raws _ _ _) as [[r n]|]; [|discriminate]. apply curve_checks_pts. Qed.
+Lemma nary_len {A} (vs : list A) ins : validate_shapes ins = None -> length vs = length ins -> vs <> [].
+Proof. intros H L. apply validate_nonempty in H. destruct vs, ins; simpl in *; congruence. Qed.
 
-Theorem run_shape c ins : shapeP (first_shape ins) (run c ins).
+Theorem total_defined c ins vs : total_cmd c = true -> pre c ins = None -> length vs = length ins -> colf c ins vs <> None.
 Proof.
-  destruct c; simpl; try apply nary_shape; try (apply one_shape; intros a; simpl; auto);
-  try (apply fzres_shape); auto using curve_shape, cat_shape, mtm_shape, cz_shape.
-  - destruct ins as [|a [|b [|c t]]]; simpl; auto. apply nary_shape.
-  - unfold weighted. destruct (negb _); simpl; auto. apply nary_shape.
-  - destruct ins as [|a [|b [|c t]]]; simpl; auto. apply nary_shape.
-  - unfold weighted. destruct (negb _); simpl; auto. apply nary_shape.
-  - destruct (qminl _); simpl; auto. destruct (qmaxl _); simpl; auto.
-  - unfold cvt_to_fuzzy. destruct d; simpl; auto; destruct (qminl _); simpl; auto; destruct (qmaxl _); simpl; auto;
-    match goal with |- context [Qeq_bool ?a ?b] => destruct (Qeq_bool a b) end; simpl; auto.
-  - unfold cvt_to_binary. destruct d; simpl; auto.
-  - unfold weighted. destruct (negb _); simpl; auto. apply nary_shape.
-  - destruct (validate_shapes ins) eqn:V; simpl; auto. destruct (Z.ltb _ _); simpl; auto. destruct truest; simpl; auto.
-    destruct (Z.ltb k 1); simpl; auto. apply nary_shape.
-  - destruct (validate_shapes ins) eqn:V; simpl; auto. destruct ins as [|a [|b t]]; simpl; auto; apply nary_shape.
-  - unfold cvt_from_fuzzy. destruct (Qeq_bool t f); simpl; auto.
+  destruct c; intros Hc; try discriminate Hc; clear Hc; unfold pre, colf; intros Hp Hl; split_pre; try use_single Hl; try discriminate.
+  - (* AMinusB *) match goal with H : pair_in _ = None |- _ => apply pair_inv in H; destruct H as [a0 [b0 ->]] end.
+    simpl in Hl. apply len2 in Hl. destruct Hl as [x0 [y0 ->]]. discriminate.
+  - apply qminl_some. eapply nary_len; eauto.
+  - apply qmaxl_some. eapply nary_len; eauto.
+  - apply interp_some, curve_checks_pts. assumption.
+  - apply interp_some, mtm_pts_nonempty. assumption.
+  - apply interp_some, cz_pts_nonempty. assumption.
+  - (* CvtToFuzzy *) destruct d; try discriminate;
+    (destruct (ctf_thresholds _ _ _ _) as [[tv fv]|]; [|discriminate]; cbn [u1]; apply ofz_some, lin_some;
+     match goal with H : (if Qeq_bool ?a ?b then _ else _) = None |- _ => destruct (Qeq_bool a b) eqn:E; [discriminate|] end;
+     destruct (Qeq_bool (fv - tv) 0) eqn:E2; [|reflexivity]; apply Qeq_bool_eq in E2; apply Qeq_bool_neq in E; exfalso; apply E; lra).
+  - apply ofz_some, interp_some, curve_checks_pts. assumption.
+  - apply ofz_some, interp_some, mtm_pts_nonempty. assumption.
+  - apply ofz_some, interp_some, cz_pts_nonempty. assumption.
+  - (* FuzzySelectedUnion *) destruct (Z.ltb _ _); [discriminate|]. destruct truest; discriminate.
+  - apply ofz_some, qmaxl_some. eapply nary_len; eauto.
+  - apply ofz_some, qminl_some. eapply nary_len; eauto.
+  - (* FuzzyXOr *) unfold xor_cell.
+    assert (L : (2 <= length (rev (sortq vs)))%nat).
+    { rewrite rev_length, sortq_length, Hl. destruct ins as [|a [|b t]]; simpl in *; try discriminate; lia. }
+    destruct (rev (sortq vs)) as [|t1 [|t2 r]]; simpl in L; try lia. discriminate.
 Qed.
+
+Theorem total_mask_law c ins r : total_cmd c = true -> run c ins = ROk r ->
+  map isnone (a_cells r) = map any_none (in_cols ins).
+Proof. intros T H. rewrite (run_mask_law _ _ _ H). apply run_ok in H. destruct H as (Hp & _).
+  apply map_ext_in. intros col Hc. unfold undefined_at. destruct (all_some col) as [vs|] eqn:E; [|apply orb_false_r].
+  assert (D : colf c ins vs <> None).
+  { apply total_defined; auto. rewrite (all_some_length _ _ E). unfold in_cols in Hc. rewrite (cols_of_col_length _ _ Hc). apply map_length. }
+  destruct (colf c ins vs); [apply orb_false_r | congruence]. Qed.
+
+(* division: the only undefined place is a zero divisor *)
+Lemma divq_none a b : divq a b = None <-> b == 0.
+Proof. unfold divq. destruct (Qeq_bool b 0) eqn:E; [apply Qeq_bool_eq in E | apply Qeq_bool_neq in E]; split; auto; try discriminate; tauto. Qed.
+Theorem div_undefined ins a b : colf ADividedByB ins [a; b] = None <-> b == 0.
+Proof. apply divq_none. Qed.
+Theorem wmean_undefined ws ins vs : colf (WeightedMean ws) ins vs = None <-> qsum (wvals ws) == 0.
+Proof. apply divq_none. Qed.
